@@ -44,7 +44,7 @@ func (c09) Components() map[string][]string {
 	}
 }
 func (c09) ProbeNames() []string {
-	return []string{"torn-array-write", "backup-used", "old-survived", "new-visible", "auto-disk-guid", "exhaustive-window", "blank-old", "via-disk-partition"}
+	return []string{"torn-array-write", "backup-used", "old-survived", "new-visible", "auto-disk-guid", "exhaustive-window", "blank-old", "via-disk-partition", "repair-after-recovery", "ragged-device-size"}
 }
 func (c09) Budget(tier string) (int, int, int) {
 	if tier == "thorough" {
@@ -72,6 +72,11 @@ func (c09) Gen(r *core.Rng, tier string, idx int) *core.Trace {
 	}
 	if idx%97 == 5 {
 		size = 3 << 40
+	}
+	if r.Chance(10) {
+		// a device that is not a whole number of sectors long (image files are): the last sector is the last whole one
+		size += r.Range(1, lss-1)
+		t.Cfg["ragged"] = 1
 	}
 	t.Cfg["size"] = size
 	t.Cfg["lss"] = lss
@@ -165,6 +170,9 @@ func (p c09) Exec(t *core.Trace) *core.Result {
 	if size < 64*lss {
 		size = 64 * lss
 	}
+	if size%lss != 0 {
+		res.Probe("ragged-device-size")
+	}
 	oldKind := t.I("old")
 	old := gptFromOps(t.Ops, "old", t.Sg("oldguid"))
 	nw := gptFromOps(t.Ops, "new", t.Sg("newguid"))
@@ -239,6 +247,7 @@ func (p c09) Exec(t *core.Trace) *core.Result {
 	}
 
 	// judge one crash image
+	repairs := 0
 	judge := func(img *simdisk.Disk, k int, bits string, complete bool) *core.Violation {
 		res.Evals++
 		var tb *gpt.Table
@@ -283,6 +292,30 @@ func (p c09) Exec(t *core.Trace) *core.Result {
 			}
 		} else if view.Primary == nil {
 			return mk("invalid-primary-accepted", fmt.Sprintf("library returned the primary copy that the independent parser rejects: %v", view.PrimaryErr))
+		}
+		if tb.RecoveredFromBackup && !complete && repairs < 3 {
+			// the repair every tool performs on such a disk: the table that was recovered is written back. That is
+			// a completed Write, so it reads back from the primary copy, as the same table.
+			repairs++
+			res.Probe("repair-after-recovery")
+			rimg := img.Clone()
+			var rerr error
+			var tb2 *gpt.Table
+			if pk, pv, loc, _ := core.Guard(func() {
+				if rerr = tb.Write(rimg, size); rerr == nil {
+					tb2, rerr = gpt.Read(rimg, int(lss), int(pss))
+				}
+			}); pk {
+				return &core.Violation{Clause: "C09.panic", Trigger: trig + ":repair", Locus: loc, Detail: fmt.Sprintf("writing back the recovered table panicked: %v (k=%d bits=%s)", pv, k, bits)}
+			}
+			switch {
+			case rerr != nil:
+				return mk("repair-failed", "writing back the table recovered from the backup, or reading it afterwards, failed: "+rerr.Error())
+			case tb2.RecoveredFromBackup || indep.ReadGPT(rimg, lss).Primary == nil:
+				return mk("repair-not-from-primary", "the recovered table was written back completely, yet the primary copy is still not valid")
+			case canonOfTable(tb2, gptSpec{GUID: "x"}) != got:
+				return mk("repair-changed-table", "the recovered table reads back differently after being written back: "+canonOfTable(tb2, gptSpec{GUID: "x"}))
+			}
 		}
 		if oldKind == 2 {
 			var pt partition.Table
